@@ -69,6 +69,20 @@ class GLoop:
 
     def __init__(self, name):
         self.name = name
+        self._closed = None
+
+    def is_closed(self):
+        """the loop code runs on is open; a loop the object was used from earlier (successive asyncio.run calls) may or
+        may not have been closed meanwhile - both are explored; once closed a loop stays closed"""
+        if self.name == "current":
+            return False
+        if self._closed is None:
+            from . import interp
+            self._closed = interp.current().choose(2, tag="previous_loop.closed") == 1
+        return self._closed
+
+    def is_running(self):
+        return self.name == "current"
 
     def create_future(self):
         from . import interp
